@@ -143,7 +143,10 @@ type World struct {
 }
 
 func freePort() int {
-	l, _ := net.Listen("tcp", "127.0.0.1:0")
+	l, err := Listen()
+	if err != nil {
+		panic(err)
+	}
 	defer l.Close()
 	return l.Addr().(*net.TCPAddr).Port
 }
@@ -186,7 +189,7 @@ func NewWorld(opts Options) (*World, error) {
 	w.Master = NewFakeMaster(opts.Agents, &w.Clock)
 	w.Master.Log = func(kind string, seq int64, data interface{}) { w.add(seq, kind, data) }
 	// hub
-	ln, err := net.Listen("tcp", "127.0.0.1:0")
+	ln, err := Listen()
 	if err != nil {
 		return nil, err
 	}
